@@ -15,7 +15,7 @@
    merge_writer gcap rs = Some w, new_reader (finalize w) = Some m : index.Merge(rs) produced the file m.
    The two total_hosts bounds: fewer than 2^32 hosts per address family in the merged file. *)
 From Coq Require Import NArith List Lia.
-Require Import Pk.IndexFormat Pk.IndexFormatCodec Pk.IndexFormatHosts Pk.IndexFormatWriter Pk.Merge Pk.MergeProofs Pk.MergeVisible.
+Require Import Pk.IndexFormat Pk.IndexFormatCodec Pk.IndexFormatHosts Pk.IndexFormatWriter Pk.IndexFormatData Pk.IndexFormatPackets Pk.IndexFormatScan Pk.Merge Pk.MergeProofs Pk.MergeVisible Pk.MergeCopy Pk.MergeFull.
 Import ListNotations.
 Open Scope N_scope.
 
@@ -44,17 +44,66 @@ Theorem C07_merge_shows_newest : forall gcap, 0 < gcap <= 4 * P16 -> forall rs w
   rgood gcap m /\ forall id, option_map ometa (visible [m] id) = option_map ometa (visible rs id).
 Proof. exact merge_visible_meta. Qed.
 
-(* the property, for every prefix, every suffix and every id; metadata level
-   (_partial: Packets() and Data() of the copied streams are not part of ometa; they are compared on every
-   correspondence run, see notes/C07.md) *)
-Theorem C07_merge_invisible_partial : forall gcap, 0 < gcap <= 4 * P16 -> forall pre rs w m,
+(* metadata level, under the weaker file invariant rgood *)
+Theorem C07_merge_invisible_metadata : forall gcap, 0 < gcap <= 4 * P16 -> forall pre rs w m,
   Forall (rgood gcap) rs -> merge_writer gcap rs = Some w ->
   total_hosts 4 (w_groups w) < P32 /\ total_hosts 16 (w_groups w) < P32 ->
   new_reader (finalize w) = Some m ->
   forall id, option_map ometa (visible (pre ++ [m]) id) = option_map ometa (visible (pre ++ rs) id).
 Proof. exact merge_invisible_meta. Qed.
 
-(* base case of the repetition: files produced by AddStream calls are good *)
+(* ---------------- the full statement: everything a stream shows ---------------- *)
+(* rholds r rec s : the file r carries, at the offsets of record rec, exactly the packet block AddStream writes for
+   the input stream s (relative to r's import table) and s's payload block (payload c2s, payload s2c, segmentation
+   varints of a prefix of the direction runs whose dropped tail is empty - AddIndex stops copying the segmentation
+   once the byte count is used up), and rec's byte counts and absolute first/last time are those of s.
+   wf_stream s : the C01 input hypotheses (>= 1 packet, wf_packets, wf_data, names without NUL, payload < 2^64).
+   rgood2 gcap r : rgood + import names without NUL + every record of r holds some well-formed input stream.
+   Packets() and Data() of a record that holds s are functions of s alone (C07_packets_of_held_stream,
+   C07_data_of_held_stream): Data() does not read beyond the stream's own records and segmentation. *)
+Theorem C07_packets_of_held_stream : forall r rec s,
+  rholds r rec s -> packets r rec = Some (expect_packets (first_ts s) (s_packets s)).
+Proof. exact holds_packets. Qed.
+
+Theorem C07_data_of_held_stream : forall r rec s, rholds r rec s -> data r rec = data_canon s.
+Proof. exact holds_data. Qed.
+
+(* one AddIndex call keeps what old records hold and makes every copied record hold what its source holds *)
+Theorem C07_add_index_full : forall gcap, 0 < gcap <= 4 * P16 -> forall w r w',
+  wgood2 gcap w -> rgood2 gcap r -> add_index gcap w r = Some w' -> lenN (w_packets w') < P32 ->
+  wgood2 gcap w' /\
+  (forall rec s, In rec (w_streams w) -> wholds w rec s ->
+                 exists rec', In rec' (w_streams w') /\ wmeta w' rec' = wmeta w rec /\ wholds w' rec' s) /\
+  (forall srec s, In srec (f_streams (r_file r)) -> ~ In (st_id srec) (map st_id (w_streams w)) -> rholds r srec s ->
+                  exists rec', In rec' (w_streams w') /\ wmeta w' rec' = rmeta r srec /\ wholds w' rec' s).
+Proof. exact add_index_full. Qed.
+
+(* Merge(rs) is again a good file and shows for every id EXACTLY the observation of the newest version:
+   metadata, Packets() and Data() (chunks with directions, bytes and times) *)
+Theorem C07_merge_shows_newest_full : forall gcap, 0 < gcap <= 4 * P16 -> forall rs w m,
+  Forall (rgood2 gcap) rs -> merge_writer gcap rs = Some w ->
+  total_hosts 4 (w_groups w) < P32 /\ total_hosts 16 (w_groups w) < P32 -> lenN (w_packets w) < P32 ->
+  new_reader (finalize w) = Some m ->
+  rgood2 gcap m /\ forall id, visible [m] id = visible rs id.
+Proof. exact merge_visible_full. Qed.
+
+(* THE PROPERTY: replacing any suffix of the stack by its merge changes nothing that is visible; closed under
+   repetition because the merge result is rgood2 again (above) and written files are rgood2 (below) *)
+Theorem C07_merge_invisible : forall gcap, 0 < gcap <= 4 * P16 -> forall pre rs w m,
+  Forall (rgood2 gcap) rs -> merge_writer gcap rs = Some w ->
+  total_hosts 4 (w_groups w) < P32 /\ total_hosts 16 (w_groups w) < P32 -> lenN (w_packets w) < P32 ->
+  new_reader (finalize w) = Some m ->
+  forall id, visible (pre ++ [m]) id = visible (pre ++ rs) id.
+Proof. exact merge_invisible_full. Qed.
+
+Theorem C07_written_files_hold_their_streams : forall gcap, 0 < gcap <= 4 * P16 -> forall L w r,
+  16 < gcap -> Forall (fun ids => wf_meta (snd ids)) L -> Forall (fun ids => wf_stream (snd ids)) L -> NoDup (ids_of L) ->
+  add_streams gcap new_writer L = Some w ->
+  total_hosts 4 (w_groups w) < P32 /\ total_hosts 16 (w_groups w) < P32 -> lenN (w_packets w) < P32 ->
+  new_reader (finalize w) = Some r -> rgood2 gcap r.
+Proof. exact written_reader_good2. Qed.
+
+(* base case of the repetition for the metadata statement: files produced by AddStream calls are good *)
 Theorem C07_written_files_are_good : forall gcap, 0 < gcap <= 4 * P16 -> forall L w r,
   16 < gcap -> Forall (fun ids => wf_meta (snd ids)) L -> NoDup (ids_of L) ->
   add_streams gcap new_writer L = Some w ->
